@@ -231,8 +231,9 @@ class ProfileBase(metaclass=abc.ABCMeta):
         else:
             raise ValueError('invalid method, must be "max" or "sum"')
 
-        # NOTE: max and sum will never be NaN (automatically masked)
-        if normalization == 0:
+        # NOTE: the max is NaN only if all profile values are NaN (e.g.,
+        # all pixels masked or off the image)
+        if normalization == 0 or not np.isfinite(normalization):
             warnings.warn('The profile cannot be normalized because the '
                           'max or sum is zero.', AstropyUserWarning)
         else:
